@@ -51,6 +51,18 @@ theorem publication_lists_exactly (cfg : Cfg) (pre : List Op) (op : Op) (p : Pub
   rw [step_pub_inst _ _ _ hp, ← fdt_lists_exactly cfg (pre ++ [op]) p.time, run_append]
   simp [run]
 
+/-- being-transferred mode, the reading that is proved: "in transmission" ranges over the objects still in the FDT.  Witness
+    of the difference to the literal text (finding fdtabs-5): object 1 is started, removed by the application while its
+    transfer runs (the scheduler keeps sending it), object 2 starts - the instance published then lists only TOI 2. -/
+theorem removed_in_transmission_not_listed :
+    ((run (init { mode := .beingTransferred, startId := 1, durationUs := 3600000000, oti := ⟨0, 0, 64, 1400, 0, none⟩,
+                  groups := none })
+        [.add ⟨"61", "74", 6000, 6000, 0, none, none, none, none, none, 1, false⟩,
+         .add ⟨"62", "74", 3, 3, 0, none, none, none, none, none, 1, false⟩,
+         .tstart 1 5, .remove 1, .tstart 2 5]).2.map
+      (fun p => p.inst.files.map (fun f => f.toi))) = [[1], [2]] := by
+  decide
+
 /-! ## attributes -/
 
 /-- `file_attrs_unaltered`: every file entry of an instance built after ANY history stems from an `add` of the trace that
@@ -233,6 +245,33 @@ theorem ntpSecs_eq_floor (t : Nat) (h : t / 1000000 + 2208988800 < 2^32) : ntpSe
   exact Nat.mod_eq_of_lt h
 
 example : ntpSecs 1700000000900000 = 3908988800 := by decide
+
+/-- Expires against the spec, in one statement, for every PUBLISHED instance whose expiry lies in NTP era 0 (before
+    2036-02-07T06:28:16Z): `Expires` = whole seconds since 1900 of the publish time + whole seconds of the duration, and
+    flute's receiver reads the expiry instant back -/
+theorem expires_spec_era0 (cfg : Cfg) (ops : List Op) (p : Pub) (hp : p ∈ (run (init cfg) ops).2)
+    (hera : p.time / 1000000 + 2208988800 + cfg.durationUs / 1000000 < 2^32) :
+    p.inst.expires = ntpFloor p.time + cfg.durationUs / 1000000 ∧
+    recvExpiration p.inst = some (expiryUs cfg.durationUs p.time) := by
+  refine ⟨?_, ?_⟩
+  · rw [expires_eq cfg ops p hp, ntpSecs_eq_floor p.time (Nat.lt_of_le_of_lt (Nat.le_add_right _ _) hera)]
+  · rcases published_is_instanceAt cfg ops p hp with ⟨pre, op, post, _, h2⟩
+    rw [h2]
+    have hc : (run (init cfg) (pre ++ [op])).1.cfg = cfg := run_cfg _ _
+    have := recvExpiration_eq (run (init cfg) (pre ++ [op])).1 p.time (by rw [hc]; exact hera)
+    rw [hc] at this
+    exact this
+
+/-- NTP era 1 (finding fdtabs-4): an instance published one second before the wrap with a duration of one hour carries
+    `Expires = 4294970895` (seconds truncated to 32 bits, duration added afterwards) and flute's receiver cannot read an
+    expiry from it; one second later `Expires = 3600` -/
+theorem expires_era1_unreadable :
+    let cfg : Cfg := { mode := .fullFdt, startId := 1, durationUs := 3600000000, oti := ⟨0, 0, 64, 1400, 0, none⟩, groups := none }
+    (instanceAt (init cfg) 2085978495000000).expires = 4294970895 ∧
+    recvExpiration (instanceAt (init cfg) 2085978495000000) = none ∧
+    (instanceAt (init cfg) 2085978496000000).expires = 3600 ∧
+    recvExpiration (instanceAt (init cfg) 2085978496000000) = none := by
+  decide
 
 /-! ## instance ids -/
 
